@@ -80,6 +80,7 @@ func loadContracts(P *Program, trusted []string, overlay map[string][]byte) (*Co
 	cs.Ghosts["closed"] = &GhostDecl{Name: "closed", Type: "map[ptr]bool", Src: "builtin"}
 	cs.Ghosts["onceDone"] = &GhostDecl{Name: "onceDone", Type: "map[ptr]bool", Src: "builtin"}
 	cs.Ghosts["select"] = &GhostDecl{Name: "select", Type: "mathint", Src: "builtin"}
+	cs.Ghosts["sends"] = &GhostDecl{Name: "sends", Type: "mathint", Src: "builtin"}
 	var files []string
 	tdir := filepath.Join(verifRoot, "contracts", "trusted")
 	if len(trusted) == 0 {
